@@ -20,6 +20,7 @@ mod hashseed;
 mod rng;
 mod sched;
 mod storage;
+mod tx;
 
 use common::*;
 use driver::Engine;
@@ -30,9 +31,10 @@ static SCHED: sched::SchedEngine = sched::SchedEngine;
 static PROPT: proptest::PropEngine = proptest::PropEngine;
 static STORAGE: storage::StorageEngine = storage::StorageEngine;
 static BLUEPRINT: blueprint::BlueprintEngine = blueprint::BlueprintEngine;
+static TX: tx::TxEngine = tx::TxEngine;
 
 fn engines() -> Vec<&'static dyn Engine> {
-    vec![&BUDGET, &BUILD, &SCHED, &PROPT, &STORAGE, &BLUEPRINT]
+    vec![&BUDGET, &BUILD, &SCHED, &PROPT, &STORAGE, &BLUEPRINT, &TX]
 }
 
 fn find_engine(name: &str) -> Option<&'static dyn Engine> {
